@@ -22,5 +22,5 @@ for sid in sorted(res):
     elif r:
         caught = 'undecided: ' + (', '.join(und) or ', '.join(sorted(r)))
     else:
-        caught = '**missed**'
+        caught = '**accepted**'
     print(f'| {sid} | {summ.replace("|", "/")} | {caught} |')
